@@ -166,7 +166,7 @@ def run_scenarios(scs, procs=14):
         return pool.map(_run_one, scs, chunksize=max(1, len(scs) // (procs * 8)))
 
 
-def validate(prop, scs, ctx: Ctx, also=(), extra_cov=None, extra_traces=()):
+def validate(prop, scs, ctx: Ctx, also=(), extra_cov=None, extra_traces=(), keep_items=False):
     """Run scenarios, validate traces with TLC, build the Outcome for property `prop`.
     Clauses owned by `prop` or by a property in `also` are violations of `prop`; other clauses become notes.
     ``extra_traces`` = already recorded executions [(trace, diag, scenario)] (guided replays of TLC behaviours)."""
@@ -248,6 +248,8 @@ def validate(prop, scs, ctx: Ctx, also=(), extra_cov=None, extra_traces=()):
     if extra_cov:
         cov.update(extra_cov)
     out.coverage = cov
+    if keep_items:
+        out.items = [(tr, dg, sc) for tr, (sc, dg) in zip(traces, keep)]
     return out
 
 
